@@ -129,6 +129,9 @@ def run(tier="quick"):
         cuts = sorted(set(arrivals(rng, rng.choice([2, 4, 6]), 8.0)))
         cuts = cuts[:len(cuts) // 2 * 2]
         schedule = [(cuts[i], cuts[i + 1]) for i in range(0, len(cuts), 2)]
+        if seed % 3 == 0 and len(cuts) >= 3:
+            # back-to-back windows (the close of one and the open of the next share an instant: the gate must end up open)
+            schedule = [(cuts[i], cuts[i + 1]) for i in range(len(cuts) - 1)]
         times = arrivals(rng, rng.randint(1, 14), 8.0)
         sink = Sink()
         gate = GateController("gate", downstream=sink, schedule=schedule, initially_open=rng.choice([True, False]),
@@ -148,6 +151,12 @@ def run(tier="quick"):
         check(not (gate.is_open and gate.queue_depth), "gate/open-gate-holds-nothing", depth=gate.queue_depth, **cfg)
         check(ids == sorted(ids), "gate/items-pass-in-arrival-order", got=sink.got, **cfg)
         check(cap == 0 or gate.queue_depth <= cap, "gate/waiting-room-within-capacity", depth=gate.queue_depth, **cfg)
+        # the gate is open exactly during its scheduled windows: an item offered strictly inside a window passes at once
+        passed_at = {n: d for d, n in sink.got}
+        inside = [n for n, t in enumerate(times) if any(o < t < c for o, c in schedule)]
+        check(all(n in passed_at and abs(passed_at[n] - times[n]) < 1e-9 for n in inside),
+              "gate/item-offered-inside-an-open-window-passes-at-once",
+              late=[(n, times[n], passed_at.get(n)) for n in inside if n not in passed_at or abs(passed_at[n] - times[n]) >= 1e-9][:3], **cfg)
 
     # ------------------------------------------------------------------ PooledCycleResource
     for seed in range(runs):
